@@ -243,7 +243,7 @@ class Gen:
         # tasks keep their own discipline: do not pop a task body label here
         top = st[-1] if st else None
         can_pop = top is not None and top != W.TASK_BODY_LABEL.get(m)
-        if (can_pop and self.k.get("pause_needs_region") and len(st) >= 2 and st[-2] == W.TASK_BODY_LABEL.get(m)
+        if (can_pop and self.k.get("pause_needs_region") and not self.k.get("offgrammar_pop") and len(st) >= 2 and st[-2] == W.TASK_BODY_LABEL.get(m)
                 and th.bstack.get(m) and th.bstack[m][-1].state == "paused"):
             # the runtimes resume a body before leaving the region it paused in
             can_pop = False
